@@ -66,7 +66,7 @@ Section Accept.
      if bytes_eqb (h_name h) (h_prev h) then [] else [OSignal now' OBJ SIG_hostnameChanged (PBytes (Some (h_name h)))]).
   Proof.
     unfold hdispatch, dispatch. cbn [host_handle s_now s_st s_tm s_seq]. rewrite N.eqb_refl.
-    destruct (bytes_eqb (h_name h) (h_prev h)); reflexivity.
+    rewrite ?host_announce_old in *. destruct (bytes_eqb (h_name h) (h_prev h)); reflexivity.
   Qed.
 
   Lemma dispatch_reb now' sq0 h :
@@ -127,7 +127,7 @@ Section Accept.
       set (s2 := mkSim now' [(T_REB, now' + rebroadcast_ms, (s_seq s + 1)%N)] (s_seq s + 1)%N
                        (set_host (s_st s) (h_name (s_st s)) (h_prev (s_st s)) true (h_suffix (s_st s)))).
       assert (B2 : budget f t strict s2) by (apply (Hbud s2 T_REB (now' + rebroadcast_ms) (s_seq s + 1)%N); [reflexivity|reflexivity|lia]).
-      destruct (bytes_eqb (h_name (s_st s)) (h_prev (s_st s))) eqn:Esame.
+      rewrite ?host_announce_old in *. destruct (bytes_eqb (h_name (s_st s)) (h_prev (s_st s))) eqn:Esame.
       + (* same name as before: silent, the acceptor lags *)
         assert (J2 : J MLag s2 q tp).
         { destruct HJ as [A1 A2 A3 A4 A5 A6 _]. constructor; cbn [s2 s_st s_now s_tm set_host h_local h_ifaces h_suffix h_name h_reg]; auto; try lia.
